@@ -598,7 +598,9 @@ Qed.
 
    expected_shared_writes is the AUDITED list for the pinned tree; each group
    carries the reason why it is not shared state of a parsed tree.  When the
-   table changes, audit the new entry before extending the list. *)
+   table changes, audit the new entry before extending the list.
+   Audited at /repo 50b6ac5; confirmed unchanged at /repo 5052f97 (the dynblock
+   expandBlocks fix only re-targets the local pointer blockS: no new write). *)
 Module SharedWrites.
 Import Coq.Strings.String.
 Local Open Scope string_scope.
